@@ -16,6 +16,21 @@ import (
 
 func ll(lat, lng float64) s2.Point { return s2.PointFromLatLng(s2.LatLngFromDegrees(lat, lng)) }
 
+// HookShape wraps a Shape; OnEdge (if set) runs at every Edge call, i.e. in the middle of any
+// query that looks at the shape's edges: a parking / inspection point inside a query that
+// needs no hook in the library.
+type HookShape struct {
+	s2.Shape
+	OnEdge func()
+}
+
+func (h *HookShape) Edge(i int) s2.Edge {
+	if f := h.OnEdge; f != nil {
+		f()
+	}
+	return h.Shape.Edge(i)
+}
+
 // World is one set of shared objects; Make builds an identical, independent copy each time.
 type World struct {
 	Loop    *s2.Loop
@@ -24,6 +39,7 @@ type World struct {
 	Many    *s2.Polygon    // 13+ disjoint loops: the polygon keeps a per-loop edge-offset table
 	ManyIx  *s2.ShapeIndex // an index holding Many as a shape
 	Index   *s2.ShapeIndex
+	Shared  *s2.EdgeQueryOptions // ONE options value from which every goroutine builds its own EdgeQuery
 	Target  *s2.ShapeIndex
 	Probes  []s2.Point
 	Cells   []s2.Cell
@@ -63,6 +79,7 @@ func Make(sp Spec) *World {
 	w.Index.Add(s2.RegularLoop(ll(sp.Lat-1.5*sp.R, sp.Lng+sp.R), s1.Angle(0.5*sp.R)*s1.Degree, 50))
 	pl := s2.Polyline{ll(sp.Lat-sp.R, sp.Lng-2*sp.R), c, ll(sp.Lat+2*sp.R, sp.Lng+sp.R)}
 	w.Index.Add(&pl)
+	w.Shared = s2.NewClosestEdgeQueryOptions().IncludeInteriors(false)
 	w.Target = s2.NewShapeIndex()
 	w.Target.Add(s2.RegularLoop(ll(sp.Lat+3*sp.R, sp.Lng+2*sp.R), s1.Angle(0.5*sp.R)*s1.Degree, 60))
 	for k := 0; k < 12; k++ {
@@ -87,7 +104,7 @@ func Make(sp Spec) *World {
 }
 
 // NumTasks is the number of different read-only workloads.
-const NumTasks = 13
+const NumTasks = 14
 
 // Task runs workload k (with per-goroutine query objects) and returns its answers.
 func (w *World) Task(k, g int) string {
@@ -150,6 +167,24 @@ func (w *World) Task(k, g int) string {
 		s := "ClosestEdgeQuery(many loops)"
 		for _, r := range eq.FindEdges(s2.NewMinDistanceToPointTarget(p)) {
 			s += fmt.Sprintf(" %x/%d", math.Float64bits(float64(r.Distance())), r.EdgeID())
+		}
+		return s
+	case 13: // own query object, built from the options value every other goroutine also uses
+		eq := s2.NewClosestEdgeQuery(w.Index, w.Shared)
+		s := "EdgeQuery(own object, shared options value)"
+		for it := 0; it < 12; it++ {
+			pt := w.Probes[(g+it)%len(w.Probes)]
+			lim := s1.ChordAngleFromAngle(s1.Angle(float64(1+(g+it)%25)) * s1.Degree)
+			switch (g + it) % 4 {
+			case 0:
+				s += fmt.Sprint(" less=", eq.IsDistanceLess(s2.NewMinDistanceToPointTarget(pt), lim))
+			case 1:
+				s += fmt.Sprint(" n=", len(eq.FindEdges(s2.NewMinDistanceToPointTarget(pt))))
+			case 2:
+				s += fmt.Sprint(" consle=", eq.IsConservativeDistanceLessOrEqual(s2.NewMinDistanceToEdgeTarget(s2.Edge{V0: pt, V1: p}), lim))
+			default:
+				s += fmt.Sprintf(" d=%x", math.Float64bits(float64(eq.Distance(s2.NewMinDistanceToPointTarget(pt)))))
+			}
 		}
 		return s
 	default:
@@ -229,7 +264,7 @@ func Rounds(rng *vkit.Rng, n int) (fails []Failure, evals int, classes map[strin
 	for i := 0; i < n; i++ {
 		sp := RandSpec(rng)
 		G := 8 + rng.Intn(25)
-		mode := rng.Intn(4)
+		mode := rng.Intn(5)
 		base := rng.Intn(NumTasks)
 		taskOf := func(g int) int {
 			switch mode {
@@ -239,6 +274,8 @@ func Rounds(rng *vkit.Rng, n int) (fails []Failure, evals int, classes map[strin
 				return base + g%2*3
 			case 3:
 				return 9 + g%4 // everyone on the shared many-loop polygon
+			case 4:
+				return 13 // everyone with an own EdgeQuery from the one shared options value
 			}
 			return g
 		}
